@@ -152,7 +152,7 @@ def parse_text(s):
         return float(s)
 
 
-BADTEXT = ['abc', '', '12abc', 'x', '-', 'one', 'inf', 'nan', '-Infinity', '1_0']
+BADTEXT = ['abc', '', '12abc', 'x', '-', 'one', 'inf', 'nan', '-Infinity', '1_0', '1e999', '-1e400']
 # signed and exponent spellings of numbers (how floats of large/small magnitude are usually written)
 SPELLINGS = ['+0.5', '+2', '1e+16', '6.02e+23', '1E+16', '1e16', '1E5', '2.5e-3', '-1e-3', '1e+0']
 
